@@ -25,6 +25,8 @@ def run(chk):
         p = vplib.tlc(mod, cfg, timeout=300, allow_fail=True)
         if inv not in p.invariant_violated:
             raise vplib.Machinery("vacuity probe %s did not violate %s" % (cfg, inv))
+    if thorough:
+        vplib.coverage_check(chk, "CPRNG", "CPRNG.mc.cfg", ignore=("Store",), timeout=600)
     d = vplib.sub("c20")
     # (i) gate replay
     gs = vplib.tlc_mc("NonrevCacheSched", "NonrevCacheSched.gen.cfg", workers=1, timeout=900)
